@@ -383,6 +383,21 @@ func freeRun(kind, mode string, n int, rng *rand.Rand, w *bufio.Writer, wmu *syn
 		events = append(events, ev{"r", i + 1})
 		mu.Unlock()
 	}
+	// a call just before, on the same goroutine, whose every result is a non-nil value: whatever scratch space an
+	// implementation recycles between calls is dirty when the call under test (some results nil) runs
+	if mode == "Map" && n > 0 {
+		if kind == "list" {
+			warm := l.MapAsync(func(i int, v any) any { return fmt.Sprintf("stale%d", i) })
+			if want := l.Map(func(i int, v any) any { return fmt.Sprintf("stale%d", i) }); !warm.Equals(want) {
+				return fmt.Errorf("list.MapAsync n=%d differs from Map: %s vs %s", n, warm.String(), want.String())
+			}
+		} else {
+			warm := o.MapAsync(func(k string, v any) any { return "stale" + k })
+			if want := o.Map(func(k string, v any) any { return "stale" + k }); !warm.Equals(want) {
+				return fmt.Errorf("object.MapAsync n=%d differs from Map", n)
+			}
+		}
+	}
 	var ret any
 	switch {
 	case kind == "list" && mode == "ForEach":
